@@ -270,7 +270,7 @@ class League:
     def label(self, name):
         return self.labels.get(name, name)
 
-    def join(self, name, mu=None, sigma=None, has_mu=False, has_sigma=False, label=NOLABEL, clone_of=None):
+    def join(self, name, mu=None, sigma=None, has_mu=False, has_sigma=False, label=NOLABEL, clone_of=None, positional=False):
         if label is not NOLABEL:
             self.labels[name] = label
         if clone_of is not None and clone_of in self.players:
@@ -286,7 +286,16 @@ class League:
             kw["mu"] = mu
         if has_sigma:
             kw["sigma"] = sigma
-        p = self.factory.rating(**kw)
+        if positional and has_mu:
+            # the same call written positionally: rating(mu), rating(mu, sigma), rating(mu, sigma, name)
+            args = [mu] + ([sigma] if has_sigma else [])
+            if has_sigma and "name" in kw:
+                args.append(kw["name"])
+                p = self.factory.rating(*args)
+            else:
+                p = self.factory.rating(*args, **({"name": kw["name"]} if "name" in kw else {}))
+        else:
+            p = self.factory.rating(**kw)
         self.players[name] = p
         self.save(name)
         return p
@@ -404,7 +413,9 @@ def encode_outcome(rng, place):
     r = rng.random()
     if r < 0.12 and place == sorted(place) and len(set(place)) == n:
         return {}  # omitted: input order is the outcome
-    mode = rng.choice(["int", "int", "float", "floatint", "mixed", "neg", "big", "bool"])
+    mode = rng.choice(["int", "int", "float", "floatint", "mixed", "neg", "big", "bool", "signedzero"])
+    if mode == "signedzero" and len(set(place)) > 2:
+        mode = "floatint"
     if mode == "bool" and max(place) > 1:
         mode = "int"
     vals = sorted(set(place))
@@ -412,6 +423,9 @@ def encode_outcome(rng, place):
         step = rng.choice([1, 1, 2, 7])
         base = rng.choice([0, 0, 1, -3])
         m = {v: base + step * i for i, v in enumerate(vals)}
+    elif mode == "signedzero":
+        # -0.0 == 0.0 == 0: the best place is a (signed) zero
+        m = {v: [rng.choice([-0.0, 0.0, 0]), 1.5][i] for i, v in enumerate(vals)}
     elif mode == "floatint":
         # the same values an "int" encoding would use, as floats: (1, 1, 2) == (1.0, 1.0, 2.0)
         step = rng.choice([1, 1, 2, 7])
@@ -443,6 +457,7 @@ def encode_outcome(rng, place):
 ODD_NAMES = [
     "Zoe\u0308", "A\u030angstro\u0308m", "\u212b", "\u1100\u1161\u11a8", "\ufb01nal", "  padded  ", "O'Brien; DROP TABLE", "x" * 300,
     "\u00e9clair", "\U0001f3b2 dice", "tab\tname", "0", "None", "\u0130stanbul", "stra\u00dfe", "\u01c4",
+    "lone\ud800surrogate", "nul\x00byte", "\u200bzero width", "\u202eright-to-left",
 ]
 
 
@@ -460,6 +475,8 @@ def gen_population(rng, cfg, n, style):
             op["label"] = rng.choice(ODD_NAMES) + (" #%d" % i if rng.random() < 0.5 else "")
         elif r0 < 0.35:
             op["label"] = None  # a player without a name
+        if rng.random() < 0.3:
+            op["positional"] = True
         r = rng.random()
         if style == "default" or (style == "mixed" and r < 0.4):
             pass
@@ -565,8 +582,10 @@ def gen_options(rng, cfg, rate=0.3, grid=False):
             out["tau"] = enc(float(mt) * rng.choice([1.0, 1.0, 1.0 + 1e-10, 1.0 - 1e-10, 1.0 + 2.0 ** -52]))
         elif r < 0.80:
             out["tau"] = enc(rng.uniform(0.3, 4.0) * beta)
-        elif r < 0.87:
+        elif r < 0.84:
             out["tau"] = enc(rng.choice([10.0, 50.0, 300.0]) * beta)
+        elif r < 0.87:
+            out["tau"] = enc(rng.choice([1e-30 * s, 1e-170, 5e-324, 1e-160 * beta]))  # tau*tau underflows
         else:
             out["tau"] = rng.choice([1, 2, 3]) if 0.2 <= s <= 50 else enc(beta)
     if rng.random() < rate:
